@@ -37,6 +37,31 @@ CLAIMS = {
             SCHED_NOTE, '5/C10'),
 }
 
+TM_NOTE = ('Theorems are about the Gallina model coq/theories/TaskMgr.v: the five task managers on an explicit asyncio '
+           'ready queue (handles HStep/HDone, Task.cancel() with _must_cancel as in CPython 3.12, coroutine phases), for '
+           'every event sequence, bound, policy and key assignment; no axioms. Tied to /repo by running the real managers '
+           'on a virtual loop with instrumented coroutines and comparing manager.task, queue, tracked tasks, loop._ready, '
+           'coroutine states and logs after every event with the model evaluated in Coq. asyncio itself is modelled, not '
+           'verified.')
+F_NOTE = ('Theorems are about the Gallina models Civil.v / Filters.v / Parse.v (code points below U+0250; LC_ALL=C name '
+          'tables); no axioms. Tied to /repo by evaluating filters built through the public FilterBuilder API at grid and '
+          'boundary instants in 7-14 zones and by parsing exhaustive range spellings, name tables, random nestings and a '
+          'malformed stream, compared with the model in Coq; lower/isspace/isdigit/int tables and DAY_NAMES/MONTH_NAMES are '
+          'compared with the running Python on every run. The utc offset at an instant comes from whenever.')
+CLAIMS.update({
+    'C11': ('run_inv (invariant for all event lists, all five managers) and from it: mutual exclusion, submission order, '
+            'progress (done-callback starts the queue head in the same step), exact victim at the bound, newest-per-key, '
+            'conservation (every coroutine in exactly one place; none started twice) - all proved at full strength',
+            TM_NOTE, '6/C11'),
+    'C12': ('bound on tracked tasks, exact victim per policy, slot release at the done-callback, the unbounded manager '
+            'keeps every task until done and forgets it afterwards, conservation - all proved for every event list',
+            TM_NOTE, '6/C12'),
+    'C17': ('allow = sem for every filter expression (algebra, half-open time window, set membership), Gregorian calendar '
+            'round trip for every day, string-level parser soundness for the whole grammar incl. wrap-around ranges and '
+            'nested lists, rejection lemmas, name tables - all proved',
+            F_NOTE, '6/C17'),
+})
+
 checks = []
 na = []
 for p in props:
